@@ -37,6 +37,8 @@ type mplexScn struct {
 		Empty bool `json:"empty"` // runs: empty data frames instead of info frames
 		First int  `json:"first"` // runs: only before the first N data frames (0: all)
 		ErrAt int  `json:"errat"` // errat: inject an error frame at this logical stream offset
+		// FromEnd > 0: ... counted back from the END of the stream (the last phase marker, the statistics)
+		FromEnd int `json:"fromend"`
 	} `json:"framing"`
 }
 
@@ -156,6 +158,10 @@ func (r *reframer) feed(p []byte) error {
 			p = p[n:]
 			r.off += n
 		case "errat":
+			if f.FromEnd > 0 {
+				f.ErrAt = max(0, r.total-f.FromEnd)
+				f.FromEnd = 0
+			}
 			n := len(p)
 			if r.off+n > f.ErrAt {
 				n = f.ErrAt - r.off
